@@ -1,9 +1,15 @@
 package pktgen
 
 import (
+	"bytes"
 	"math"
 	"reflect"
 	"time"
+
+	"go.minekube.com/gate/pkg/edition/java/proto/packet/chat"
+	"go.minekube.com/gate/pkg/edition/java/proto/util"
+	"go.minekube.com/gate/pkg/edition/java/proto/version"
+	"go.minekube.com/gate/pkg/gate/proto"
 
 	"go.minekube.com/common/minecraft/key"
 	"go.minekube.com/gate/pkg/util/uuid"
@@ -19,7 +25,17 @@ var (
 
 // Dump prints the exported fields of a packet as a Check.C04.fval term. Kinds the dump does not
 // carry (maps, funcs, foreign interfaces) become FX; the Coq side fails closed when a layout needs them.
-func Dump(p any) string {
+func Dump(p any) string { return DumpAt(p, 0) }
+
+var (
+	dumpProto  proto.Protocol
+	holderType = reflect.TypeOf(chat.ComponentHolder{})
+)
+
+// DumpAt dumps for one protocol: chat.ComponentHolder fields are dumped as the wire form they have at
+// that protocol (JSON text below 1.20.3, a nameless NBT tag from 1.20.3 on), produced by the holder's own Write.
+func DumpAt(p any, protocol proto.Protocol) string {
+	dumpProto = protocol
 	v := reflect.ValueOf(p)
 	for v.Kind() == reflect.Ptr {
 		if v.IsNil() {
@@ -41,6 +57,24 @@ func dumpVal(v reflect.Value, depth int) string {
 	case t == uuidType:
 		u := v.Interface().(uuid.UUID)
 		return "(FU " + lib.Bytes(u[:]) + ")"
+	case t == holderType:
+		if !v.CanAddr() {
+			return "FX"
+		}
+		h := v.Addr().Interface().(*chat.ComponentHolder)
+		var b bytes.Buffer
+		if err := util.RecoverFunc(func() error { return h.Write(&b, dumpProto) }); err != nil {
+			return "FX"
+		}
+		w := b.Bytes()
+		if dumpProto.Lower(version.Minecraft_1_20_3) {
+			_, n, err := util.ReadVarIntReturnN(bytes.NewReader(w))
+			if err != nil {
+				return "FX"
+			}
+			w = w[n:]
+		}
+		return "(FBy " + lib.Bytes(w) + ")"
 	case t == keyType:
 		if v.IsNil() {
 			return "(FO None)"
